@@ -261,32 +261,91 @@ def tours(ctx, edges, maxlen=300):
     return hists, covered
 
 
+QUERIES = ('cmp', 'caseCmp', 'startsWith', 'eq', 'findChar', 'rfindChar', 'findStr', 'rfindStr', 'findFirstOf', 'findFirstNotOf', 'findLastOf',
+           'findLastNotOf', 'at', 'index', 'copy', 'length')
+GROWING = ('append', 'appendSub', 'appendLit', 'pushBack', 'rawAppend', 'appendf', 'printf', 'cstr')
+
+
 def graph_walks(ctx, edges, nwalks, length):
-    """seeded random walks through TLC's state graph: the same calls as the tours, but every state is left and re-entered
-    many times, so that the real objects meet the same abstract state in many different sharing configurations"""
+    """seeded random walks through TLC's state graph: the same calls as the tours, but every abstract state is met in many
+    different sharing configurations of the real objects.  Steps are drawn by category so that the calls that build sharing
+    (copies, substrings, consume into another value), the calls that write (appends, c_str), and the mutators that leave the
+    abstract state unchanged (zero-length appends, reservations, no-op slices) follow each other often."""
     rnd = random.Random(ctx.seed * 31 + 7)
 
     def key(st):
         return json.dumps(st, separators=(',', ':'))
-    out = collections.defaultdict(list)
+    out = collections.defaultdict(lambda: collections.defaultdict(list))
     for e in edges:
-        out[key(e['s'])].append((e['o'], key(e['t'])))
+        o, ks, kt = e['o'], key(e['s']), key(e['t'])
+        if o['a'] in QUERIES:
+            cat = 'query'
+        elif o['a'] in ('assign', 'assignSub', 'consume') and (o['i'] != o['j'] or o['a'] == 'assignSub'):
+            cat = 'share'
+        elif ks == kt:
+            cat = 'noop'
+        elif o['a'] in GROWING:
+            cat = 'grow'
+        else:
+            cat = 'other'
+        out[ks][cat].append((o, kt))
     for k in out:
-        out[k].sort(key=lambda x: (json.dumps(x[0], sort_keys=True), x[1]))
+        for c in out[k]:
+            out[k][c].sort(key=lambda x: (json.dumps(x[0], sort_keys=True), x[1]))
     init = key(edges[0]['s'])
+    cats, weights = ['share', 'noop', 'grow', 'other', 'query'], [25, 20, 30, 15, 10]
     walks = []
     for _ in range(nwalks):
         cur, h = init, []
         for _s in range(length):
-            # half of the steps prefer calls that change the state (mutators drive the sharing structure)
-            cands = out[cur]
-            if rnd.random() < 0.5:
-                moving = [c for c in cands if c[1] != cur]
-                cands = moving or cands
+            c = rnd.choices(cats, weights)[0]
+            cands = out[cur].get(c) or [x for v in out[cur].values() for x in v]
             o, cur = rnd.choice(cands)
             h.append(o)
         walks.append(h)
     return walks
+
+
+def pair_scenarios(ctx):
+    """T1c: every mutating call (with boundary arguments, zero-length variants included) applied to a value X in every canonical
+    sharing configuration with a sibling Y (X = Y, X a prefix / middle / tail / empty view of Y, X grown past Y, X consumed from Y,
+    unshared, sibling NUL-terminated), followed by a suite of writes through X and Y.  Hidden-state damage done by the first call
+    (a blob tail claimed, a size counter moved) shows as a content change of the sibling in the probe suite."""
+    X, Y = 1, 2
+    base = b'aAa'
+    setups = [
+        ('same', [mkop('assignLit', Y, lit=base), mkop('assign', X, Y)]),
+        ('prefix', [mkop('assignLit', Y, lit=base), mkop('assignSub', X, Y, 0, 1)]),
+        ('middle', [mkop('assignLit', Y, lit=base), mkop('assignSub', X, Y, 1, 1)]),
+        ('tail', [mkop('assignLit', Y, lit=base), mkop('assignSub', X, Y, 1, -1)]),
+        ('emptyview', [mkop('assignLit', Y, lit=base), mkop('assignSub', X, Y, 0, 0)]),
+        ('grown', [mkop('assignLit', X, lit=b'aA'), mkop('assign', Y, X), mkop('appendLit', X, lit=b'a')]),
+        ('consumed', [mkop('assignLit', Y, lit=base), mkop('consume', Y, X, n=1)]),
+        ('alone', [mkop('assignLit', X, lit=base), mkop('assignLit', Y, lit=b'A'), mkop('reserveSpace', X, n=7)]),
+        ('terminated', [mkop('assignLit', Y, lit=base), mkop('assign', X, Y), mkop('cstr', Y)]),
+    ]
+    pn = [(0, 0), (0, 1), (1, 1), (1, -1), (0, -1), (3, -1), (-1, 0), (1, 3)]
+    op1 = [mkop('assign', X, Y), mkop('assign', X, X), mkop('assignLit', X, lit=b''), mkop('assignLit', X, lit=b'A'), mkop('clear', X),
+           mkop('append', X, X), mkop('append', X, Y), mkop('appendLit', X, lit=b''), mkop('appendLit', X, lit=b'a'), mkop('pushBack', X, c=65),
+           mkop('rawAppend', X, lit=b'', n=0), mkop('rawAppend', X, lit=b'', n=3), mkop('rawAppend', X, lit=b'a', n=0), mkop('rawAppend', X, lit=b'a', n=3),
+           mkop('appendf', X, X), mkop('appendf', X, Y), mkop('printf', X, X), mkop('printf', X, Y), mkop('toLower', X), mkop('toUpper', X),
+           mkop('setAt', X, pos=0, c=65), mkop('setAt', X, pos=5, c=65), mkop('cstr', X),
+           mkop('reserveSpace', X, n=0), mkop('reserveSpace', X, n=1), mkop('reserveSpace', X, n=7), mkop('reserveSpace', X, n=268435456),
+           mkop('reserveCapacity', X, n=0), mkop('reserveCapacity', X, n=7)]
+    for p, n in pn:
+        op1 += [mkop('assignSub', X, X, p, n), mkop('assignSub', X, Y, p, n), mkop('appendSub', X, X, p, n), mkop('appendSub', X, Y, p, n), mkop('chop', X, X, p, n)]
+    for n in (0, 1, -1):
+        op1 += [mkop('consume', X, X, n=n), mkop('consume', X, Y, n=n)]
+    for f1, f2 in ((True, True), (True, False), (False, True)):
+        op1 += [mkop('trim', X, X, f1=f1, f2=f2), mkop('trim', X, Y, f1=f1, f2=f2)]
+    suites = [[mkop('appendLit', X, lit=b'A'), mkop('appendLit', Y, lit=b'a'), mkop('cstr', X), mkop('setAt', Y, pos=0, c=97)],
+              [mkop('cstr', Y), mkop('pushBack', X, c=65), mkop('toUpper', Y), mkop('rawAppend', Y, lit=b'a', n=0), mkop('append', X, Y)]]
+    trials = []
+    for name, setup in setups:
+        for o in op1:
+            for s in suites:
+                trials.append(setup + [o] + s)
+    return trials, len(trials)          # one history per trial: a rejected trial does not hide the others
 
 
 # -------------------------------------------------------------------------------------------------------------------------
@@ -427,16 +486,19 @@ def run(ctx):
     ctx.log('T1: %d edges in %d tours (%d calls): P-rejected %d, I-only rejected %d' % (covered, len(recs), ctx.cov['t1_steps'], len(prej), len(irej)))
     report(ctx, recs_events, prej, irej, 't1')
 
-    # ---- T1b: random walks through the same graph
-    gw = graph_walks(ctx, edges, 240 if ctx.thorough else 36, 250)
+    # ---- T1b: random walks through the same graph; T1c: every mutator x sharing configuration x probe suite
+    gw = graph_walks(ctx, edges, 240 if ctx.thorough else 24, 250)
+    ps, ntrials = pair_scenarios(ctx)
+    ctx.cov['pair_trials'] = ntrials
+    gw = gw + ps
     hists = [('R %d 0 1' % K1, [op_line(o) for o in h]) for h in gw]
     events_b, deaths_b = run_histories(ctx, exe, hists)
     recs_events_b = [(K1, evs) for evs in events_b]
     recs_b = [hist_record(K1, evs) for evs in events_b]
     prej_b, irej_b = validate(ctx, recs_b, 't1b', chunk=max(4, -(-len(recs_b) // (16 if ctx.thorough else 8))))
-    ctx.cov['graph_walks'] = len(recs_b)
+    ctx.cov['graph_walks'] = len(gw) - len(ps)
     ctx.cov['graph_walk_steps'] = sum(len(e) for e in events_b)
-    ctx.log('T1b: %d random walks through the model graph (%d calls): P-rejected %d, I-only rejected %d' % (len(recs_b), ctx.cov['graph_walk_steps'], len(prej_b), len(irej_b)))
+    ctx.log('T1b/c: %d graph walks + %d (sharing configuration, mutator, probe suite) trials (%d calls): P-rejected %d, I-only rejected %d' % (len(gw) - len(ps), ntrials, ctx.cov['graph_walk_steps'], len(prej_b), len(irej_b)))
     report(ctx, recs_events_b, prej_b, irej_b, 't1b')
 
     # ---- T2
